@@ -392,7 +392,12 @@ def run_case(case, ctx):
             if tuple(res.dims) != tuple(ex.dims) or rv.shape != ev.shape:
                 bad("values_equal_xarray", site, "dims", f"step {step}: dims {res.dims} shape {rv.shape}; plain xarray gives {ex.dims} {ev.shape}")
                 return fails
-            if rv.dtype != ev.dtype or not np.array_equal(rv, ev, equal_nan=rv.dtype.kind in "fc"):
+            if rv.dtype == object and ev.dtype == object and rv.shape == ev.shape:
+                # object arrays (e.g. a shifted boolean array holding NaN): element-wise, NaN equal to NaN
+                same_vals = all((a == b) or (a != a and b != b) for a, b in zip(rv.ravel().tolist(), ev.ravel().tolist()))
+            else:
+                same_vals = rv.dtype == ev.dtype and np.array_equal(rv, ev, equal_nan=rv.dtype.kind in "fc")
+            if not same_vals:
                 bad("values_equal_xarray", site, "values", f"step {step}: dtype {rv.dtype} vs {ev.dtype}; first values {rv.ravel()[:5]} vs plain xarray {ev.ravel()[:5]}")
                 return fails
             if res.name != ex.name:
